@@ -284,6 +284,13 @@ func convShapes(tr *hx.Trace, r *hx.Rng) {
 	}
 }
 
+func readsOrEmpty(r [][]interface{}) [][]interface{} {
+	if r == nil {
+		return [][]interface{}{}
+	}
+	return r
+}
+
 func min(a, b int) int {
 	if a < b {
 		return a
@@ -388,9 +395,15 @@ type meterReader struct {
 	errWithData bool // deliver the final piece together with the error / EOF in the same call
 	zeroOnce    bool // the first call returns (0, nil)
 	calls       int
+	reads       [][]interface{} // every call: requested, returned, failed
 }
 
-func (m *meterReader) Read(p []byte) (int, error) {
+func (m *meterReader) Read(p []byte) (n int, err error) {
+	defer func() { m.reads = append(m.reads, []interface{}{len(p), n, err != nil}) }()
+	return m.read(p)
+}
+
+func (m *meterReader) read(p []byte) (int, error) {
 	m.calls++
 	if m.zeroOnce && m.calls == 1 {
 		return 0, nil
@@ -477,7 +490,7 @@ func keyObjects(tr *hx.Trace, r *hx.Rng, thorough bool) {
 				}
 			}
 			tr.Emit(map[string]interface{}{"op": "genkey", "avail": rd.avail, "chunk": rd.chunk, "failing": rd.fail != nil,
-				"err": err != nil, "consumed": m.delivered, "hasKey": pub != nil && priv != nil, "coherent": coherent, "cfg": *fCfg})
+				"err": err != nil, "consumed": m.delivered, "hasKey": pub != nil && priv != nil, "coherent": coherent, "reads": readsOrEmpty(m.reads), "cfg": *fCfg})
 		}
 		// a reader that reports an error together with some data in the middle of the seed and would deliver more afterwards:
 		// io.ReadFull stops at the error (fewer than 32 bytes read), so no key may be returned
@@ -491,11 +504,11 @@ func keyObjects(tr *hx.Trace, r *hx.Rng, thorough bool) {
 				continue
 			}
 			tr.Emit(map[string]interface{}{"op": "genkey", "avail": at, "chunk": m.chunk, "failing": true, "err": err != nil, "consumed": m.delivered,
-				"hasKey": pub != nil || priv != nil, "coherent": err == m.failWith && pub == nil && priv == nil, "cfg": *fCfg, "kind": "error-with-data-mid-seed"})
+				"hasKey": pub != nil || priv != nil, "coherent": err == m.failWith && pub == nil && priv == nil, "reads": readsOrEmpty(m.reads), "cfg": *fCfg, "kind": "error-with-data-mid-seed"})
 		}
 		// nil reader: crypto/rand
 		pub, priv, err := ed25519.GenerateKey(nil)
-		tr.Emit(map[string]interface{}{"op": "genkey", "avail": 32, "chunk": -1, "failing": false, "err": err != nil, "consumed": 32,
+		tr.Emit(map[string]interface{}{"op": "genkey", "avail": 32, "chunk": -1, "failing": false, "err": err != nil, "consumed": 32, "reads": [][]interface{}{},
 			"hasKey":   pub != nil && priv != nil,
 			"coherent": err == nil && bytes.Equal(ed25519.NewKeyFromSeed(priv.Seed()), priv) && bytes.Equal(priv[32:], pub), "cfg": *fCfg})
 
